@@ -5,7 +5,7 @@ CONSTANTS
   RPs = {"r1", "autogen"}
   VirtOrgs = {1}
   MaxOps = 4
-  MaxMaps = 3
+  MaxMaps = 2
   KeepObs = TRUE
 INVARIANTS TypeOK
 CHECK_DEADLOCK FALSE
